@@ -201,6 +201,29 @@ theorem config_call_table_meaning (cs : List ConfigCall) (h : noProcessWideConfi
   simp only [noProcessWideConfig, List.all_eq_true] at h
   exact h c hc
 
+/-- **Read APIs do not write their arguments** (a proof about the table, as good as the extractor): no function of the four
+    packages whose name marks it as a read path (Find…, Iterator…, Query…, Read…, Eval…, Is…, Get…, …) writes through a slice / map /
+    pointer parameter — by element assignment, sort.* / slices.Sort*, copy into it, delete / clear, append into param[:k] — or hands it
+    to a function of its package that does.  The values slice of an index lookup stays the caller's: several read transactions may
+    pass the same slice. -/
+theorem read_apis_do_not_write_arguments : readApisDoNotWriteArguments Generated.paramWrites = true := by decide
+
+theorem param_write_table_meaning (ws : List ParamWrite) (h : readApisDoNotWriteArguments ws = true) :
+    ∀ w ∈ ws, w.api = .read →
+      ∃ e ∈ reviewedParamWrites, e.1 = w.pkg ∧ e.2.1 = w.func ∧ e.2.2.1 = w.param := by
+  intro w hw ha
+  simp only [readApisDoNotWriteArguments, List.all_eq_true] at h
+  have := h w hw
+  simp only [ParamWrite.ok, ha, bne_self_eq_false, Bool.false_or, List.any_eq_true, Bool.and_eq_true,
+    beq_iff_eq] at this
+  obtain ⟨e, he, h1⟩ := this
+  exact ⟨e, he, h1.1.1, h1.1.2, h1.2⟩
+
+/-- the table is not blind: it sees SetLinks sorting its `keys` and SetLinkedIds handing its `value` on to it (write apis) -/
+theorem param_write_table_anchors :
+    (hasParamWrite Generated.paramWrites "boltz" "linkCollectionImpl.SetLinks" "keys" .sort .write &&
+     hasParamWrite Generated.paramWrites "boltz" "PersistContext.SetLinkedIds" "value" .via .write) = true := by decide
+
 /-! ## The pooled parser's error listeners (repaired by 956c2a8) -/
 
 open ParserPool in
@@ -314,6 +337,11 @@ example : evalDoesNotWriteNodes nodeWritesWithLazyLookup = false := by decide
 def configCallsWithAntlrTrace : List ConfigCall :=
   [{ pkg := "zitiql", func := "parse", callee := "github.com/antlr4-go/antlr/v4.ConfigureRuntime", inInit := false }]
 example : noProcessWideConfig configCallsWithAntlrTrace = false := by decide
+
+/-- the table shape of "IteratorMatchingAllOf sorts the caller's values" is rejected -/
+def paramWritesWithSortedValues : List ParamWrite :=
+  [{ pkg := "boltz", func := "BaseStore.IteratorMatchingAllOf", param := "values", how := ParamWriteHow.sort, api := ApiKind.read }]
+example : readApisDoNotWriteArguments paramWritesWithSortedValues = false := by decide
 
 /-- the second reader's unpaged list is not cut by the first reader's limit (the model's answers on one version) -/
 example :
